@@ -106,9 +106,8 @@ MATRICES = ['varCovar', 'correlation', 'robust_varCovar', 'robust_correlation', 
 
 
 def run_case(c, want):
-    from biogeme.results import bioResults, compile_estimation_results
+    from biogeme.results import bioResults
 
-    out = {}
     try:
         raw = build_raw(c)
     except Exception as e:  # noqa
@@ -117,6 +116,14 @@ def run_case(c, want):
         res = bioResults(raw, identification_threshold=1.0e-5)
     except Exception as e:  # noqa
         return {'construct': exc(e)}
+    return report(res, c, want)
+
+
+def report(res, c, want):
+    """every number reported by a bioResults object, as data"""
+    from biogeme.results import bioResults, compile_estimation_results
+
+    out = {}
     d = res.data
     out['scalars'] = {k: hx(getattr(d, k, None)) if hasattr(d, k) else {'missing': True} for k in SCALARS}
     out['matrices'] = {k: (mat(getattr(d, k)) if hasattr(d, k) else None) for k in MATRICES}
@@ -191,4 +198,5 @@ def main():
     print('@@' + json.dumps(res))
 
 
-main()
+if __name__ == '__main__':
+    main()
